@@ -1,12 +1,13 @@
 #!/bin/bash
 # Runs every seeded change against the check of its property ON A SCRATCH COPY of /repo (git worktree under /tmp) with its
 # own build directory, so that /repo and /verif/build stay untouched.  One line per seed in build/seed_matrix.log.
+# optional argument: a shell pattern of seed ids (e.g. "*-r[23]-*")
 cd /verif
 W=/tmp/rws-matrix-repo; B=/tmp/rws-matrix-build
 git -C /repo worktree remove --force $W 2>/dev/null; rm -rf $W $B
 git -C /repo worktree add -q --detach $W HEAD || exit 2
 mkdir -p $B
-for d in seeded/*/; do
+for d in seeded/${1:-*}/; do
   id=$(basename $d); p=${id%%-*}
   if ! grep -q "\"property_id\": \"$p\"" MANIFEST.json; then echo "$id $p not-claimed"; continue; fi
   if ! git -C $W apply --3way /verif/seeded/$id/patch.diff >/dev/null 2>&1; then echo "$id $p patch-does-not-apply"; git -C $W reset -q; git -C $W checkout -- .; continue; fi
